@@ -55,7 +55,7 @@ func answersOf(tr *Trace, nq int) []string {
 
 func runC10(cfg *Config) *Report {
 	rep := newReport()
-	rep.Rule = "goal lists of length 0..5 (arguments: fail, fail late, == , nevero, alwayso, fives/sixes, random relational goals) x combinator in {DisjPlus, DisjPlusZzz, DisjPlusNoOrder, ConjPlus, ConjPlusZzz} x random delays of 0..800us inside the arguments (permuting arrival order) x GOMAXPROCS in {1,2,4,16} x 3 repeated runs; non-trivial = list length >= 2 with at least one delayed argument; distinct by printed case"
+	rep.Rule = "goal lists of length 0..5, one in eight of length 6..45 (arguments: fail, fail late, == , nevero, alwayso, fives/sixes, random relational goals) x combinator in {DisjPlus, DisjPlusZzz, DisjPlusNoOrder, ConjPlus, ConjPlusZzz} x random delays of 0..800us inside the arguments (permuting arrival order) x GOMAXPROCS in {1,2,4,16} x 3 repeated runs; non-trivial = list length >= 2 with at least one delayed argument; distinct by printed case"
 	cf := newCaseFile("From Coq Require Import List NArith ZArith.\nFrom GMK Require Import Term Unify Goal Stream CorrBase Corr01 Corr02.", "caseP", "checkP")
 	cf.b.WriteString(coqRelLib())
 	r := newRand(cfg.Seed)
@@ -65,11 +65,20 @@ func runC10(cfg *Config) *Report {
 	for i := 0; i < cfg.N; i++ {
 		nq := 1
 		n := r.Intn(6)
+		wide := r.Intn(8) == 0
+		if wide {
+			// wide lists: an implementation may treat long argument lists differently (batching, worker pools)
+			n = 6 + r.Intn(40)
+		}
 		args := make([]*G, n)
 		delays := make([]time.Duration, n)
 		anyDelay := false
 		for k := range args {
-			switch r.Intn(8) {
+			kk := r.Intn(8)
+			if wide && kk > 5 {
+				kk = 5 // cheap arguments: answers that tell the positions apart, failures, suspensions
+			}
+			switch kk {
 			case 0:
 				args[k] = gFail()
 			case 1:
@@ -85,10 +94,13 @@ func runC10(cfg *Config) *Report {
 			default:
 				args[k] = pg.goal(1+r.Intn(4), nq)
 			}
-			if r.Intn(2) == 0 {
+			if r.Intn(2) == 0 && (!wide || r.Intn(6) == 0) {
 				delays[k] = time.Duration(r.Intn(800)) * time.Microsecond
 				anyDelay = true
 			}
+		}
+		if wide {
+			rep.hist("wide argument list (6..45)")
 		}
 		comb := pick(r, []string{"DisjPlus", "DisjPlusZzz", "DisjPlusNoOrder", "ConjPlus", "ConjPlusZzz"})
 		if n >= 2 && strings.HasPrefix(comb, "Conj") && r.Intn(2) == 0 {
